@@ -26,7 +26,6 @@ structure GW (g : Grammar) : Prop where
   aug_prods : Canon.prodsOf g g.augIdx = [0]
   augl : ∀ l, g.auglIdx = some l → g.nterms ≤ l ∧ l < g.nterms + g.nnonterms ∧ l ≠ g.augIdx ∧
     ∃ (p : Nat) (pr : Prod), Canon.prodsOf g l = [p] ∧ g.prods[p]? = some pr ∧ pr.rhs.length = 1
-  terms_ok : ∀ tm ∈ g.terms.toList, termOk tm = true
 
 theorem mem_toList_of_getElem? {α} {a : Array α} {i : Nat} {x : α} (h : a[i]? = some x) : x ∈ a.toList := by
   have hi : i < a.size := by
@@ -41,8 +40,8 @@ theorem mem_toList_of_getElem? {α} {a : Array α} {i : Nat} {x : α} (h : a[i]?
 theorem GW.of_gwf {g : Grammar} (h : gwf g = true) : GW g := by
   unfold gwf at h
   simp only [Bool.and_eq_true, decide_eq_true_eq, beq_iff_eq, List.all_eq_true] at h
-  obtain ⟨⟨⟨⟨⟨⟨⟨⟨⟨⟨h1, h2⟩, h3⟩, h4⟩, h5⟩, h6⟩, h7⟩, h8⟩, h9⟩, h10⟩, h11⟩ := h
-  refine ⟨h1, h2, h3, h4, h5, h6, ?_, ?_, h9, ?_, h11⟩
+  obtain ⟨⟨⟨⟨⟨⟨⟨⟨⟨h1, h2⟩, h3⟩, h4⟩, h5⟩, h6⟩, h7⟩, h8⟩, h9⟩, h10⟩ := h
+  refine ⟨h1, h2, h3, h4, h5, h6, ?_, ?_, h9, ?_⟩
   · intro p pr hp
     have := h7 pr (mem_toList_of_getElem? hp)
     unfold prodOk at this
